@@ -133,15 +133,25 @@ def run(tier, chk):
     common.run_sim(chk, wd, scns, "C06_Trace", shards=14, sig_of=sig)
     rnd = random_scenarios(vlib.seed(), 3000 if tier == "quick" else 60000)
     common.run_sim(chk, wd, rnd, "C06_Trace", label="rnd", shards=14, sig_of=sig)
+    # WebTransport streams read through the futures / tokio AsyncRead of BufRecvStream in fixed-size pieces, in every fragmentation the
+    # C19 generator produces (a public read call must not panic whatever the relation of chunk sizes to the caller's buffer)
+    wts = common.gen_scenarios(chk, wd, "C19_Gen", workers=4, label="wtgen")
+    common.run_sim(chk, wd, wts, "C06_Trace", label="wtsim", shards=8, sig_of=lambda s, t, w: "c06:webtransport:" + sig(s, t, w), schedules=[])
+    # the real transport: h3 on h3-quinn against a raw Quinn peer that ends the request stream or the connection in every way QUIC
+    # offers after every prefix of a message; the application repeats its calls after the first error (C06Q_Trace)
+    qs = common.gen_scenarios(chk, wd, "C06Q_Gen", workers=2, label="qgen", cfg_text=f'SPECIFICATION Spec\nCONSTANT Tier = "{tier}"\nINVARIANT Emit\nCHECK_DEADLOCK FALSE\n')
+    common.run_sim(chk, wd, qs, "C06Q_Trace", label="quinn", shards=6, runner="quinn",
+                   sig_of=lambda s, t, w: "c06:quinn:" + ("panic" if "panic" in w else "pending" if "pending" in w else "calls-unaccounted"))
     if tier != "quick":
         # the scenario families of the other checks: none of them may make h3 panic or leave a call pending for ever either
         corpus.cross(chk, "C06", "C06_Trace", sig_of=lambda s, t, w: f"c06:corpus:{s.get('family')}:" + sig(s, t, w), exclude=("C06",))
     chk.exhaustive = False
-    chk.distinct_nontrivial = len(scns) + len(rnd)
+    chk.distinct_nontrivial = len(scns) + len(rnd) + len(wts) + len(qs)
     chk.notes["exhaustive_part"] = f"{len(scns)} fault-injection scenarios (5 base scripts x every step index x every fault x 2 configurations) are enumerated completely by TLC"
     chk.rule = ("5 base peer scripts for both roles x ONE fault (FIN, RESET, STOP_SENDING on every stream of the script; connection close with 2 codes; idle timeout) after EVERY step index x "
                 "2 configurations (TLC-enumerated), plus seeded random / grammar-mutated byte strings on request, control, QPACK, push, WebTransport and unknown streams in random chunkings "
-                "and interleavings with random endings; a trace with a panic, a lost wake-up, a livelock, or a call left pending on an object that has ended is rejected")
+                "and interleavings with random endings; the C19 WebTransport scenarios (streams read through AsyncRead in fixed-size pieces); over real Quinn: 7 message prefixes x 7 endings "
+                "(FIN, RESET_STREAM, STOP_SENDING+RESET, STOP_SENDING+FIN, CONNECTION_CLOSE) x both roles x {ending at once, ending 25 ms after the last write} x the call pattern with 1 or 2 retries of the first failing call; a trace with a panic, a lost wake-up, a livelock, or a call left pending on an object that has ended is rejected")
     chk.assumptions = ["panics are caught per poll by the executor and recorded as events", "quiescence of the deterministic executor decides 'pending forever'"]
 
 
